@@ -18,7 +18,7 @@ func init() {
 	Registry["C09"] = &Check{
 		Spec: func(tier string) evid.Spec {
 			return evid.Spec{ID: "C09", Level: "model_checking", Exhaustive: true,
-				Rule: "15 session scripts (a session whose request is numbered 255; ASCII 3-packet login good / bad password / unknown user, user in START, PAP good/bad, abort at step 2 and at step 3, command authorization permitted/denied, session authorization, accounting start, the same command lines asked by users with opposite rules), each with its own user so that a leaked " +
+				Rule: "a login waiting at a prompt while 70 (300) other sessions run to completion on its connection between its packets; 15 session scripts (a session whose request is numbered 255; ASCII 3-packet login good / bad password / unknown user, user in START, PAP good/bad, abort at step 2 and at step 3, command authorization permitted/denied, session authorization, accounting start, the same command lines asked by users with opposite rules), each with its own user so that a leaked " +
 					"user name, prompt state or continuation changes a reply. (a) one connection: every order-preserving interleaving of every ordered pair of scripts on two session ids, and of a fixed set of triples (thorough: all triples of 6 scripts); " +
 					"(b) two connections carrying the SAME session id: every packet-level interleaving of every pair. Oracle: each session's transcript (raw reply headers and decoded bodies, per packet) equals the transcript of the same script " +
 					"run alone on a freshly built server. (c) engine E2: every pair of 5 bcrypt-free scripts on two concurrent connection goroutines sharing a session id, every schedule within the deviation bound; plus every (abandoned login prefix on a connection that then closes, script on a new connection with the same session id) pair. states = distinct (script set, interleaving position) pairs; transitions = packets delivered; traces = interleavings on which all transcripts matched",
@@ -48,6 +48,64 @@ type c09Case struct {
 	Scripts []int `json:"scripts"`
 	Order   []int `json:"order"` // which script sends its next packet at each step
 	TwoConn bool  `json:"two_connections"`
+	// Crowd > 0: between the packets of script Scripts[0] that many other sessions (one command authorization each,
+	// every one under its own session id) run to completion on the same connection
+	Crowd int `json:"crowd,omitempty"`
+}
+
+// c09Crowd: a login that is waiting at a prompt while many other sessions come and go on its connection.
+func c09Crowd(c *Ctx, rw *rworld, e *rEnv, scripts [][]rPkt, cs c09Case, alone map[string][]string) {
+	c.R.Eval()
+	c.Cur(cs)
+	rc, err := rw.openR(e, "s1")
+	if err != nil {
+		c.Abort("hang", err.Error(), cs)
+	}
+	defer func() {
+		if !rc.C.Closed() {
+			rc.C.FeedEOF()
+		}
+	}()
+	other := rPkt{Kind: "author", User: "own", Args: []string{"service=shell", "cmd=show"}}
+	wantOther := ""
+	step, next := 0, 1000
+	for pos, p := range scripts[cs.Scripts[0]] {
+		p.Sid = 0
+		info, err := rw.deliverR(rc, step, p)
+		if err != nil {
+			c.Abort("hang", err.Error(), cs)
+		}
+		step++
+		c.R.Trans(1)
+		if got, want := stepTranscript(info), alone[fmt.Sprintf("%d/0", cs.Scripts[0])][pos]; got != want {
+			c.R.ViolateMin("transcript-differs-in-a-crowd", fmt.Sprintf("script %d packet %d (%s) after %d other sessions ran on the connection since its previous packet: answered %s, alone it is answered %s", cs.Scripts[0], pos, p.String(), cs.Crowd, got, want), cs, 1)
+			return
+		}
+		if pos == len(scripts[cs.Scripts[0]])-1 {
+			break
+		}
+		for k := 0; k < cs.Crowd; k++ {
+			o := other
+			o.Sid = next
+			next++
+			info, err := rw.deliverR(rc, step, o)
+			if err != nil {
+				c.Abort("hang", err.Error(), cs)
+			}
+			step++
+			c.R.Trans(1)
+			// every bystander session is answered like the first one (apart from its session id)
+			got := strings.ReplaceAll(stepTranscript(info), fmt.Sprintf("sid=%x", sidOf(o.Sid)), "sid=*")
+			if wantOther == "" {
+				wantOther = got
+			} else if got != wantOther {
+				c.R.ViolateMin("transcript-differs-in-a-crowd", fmt.Sprintf("bystander session %d was answered %s, the first one %s", k, got, wantOther), cs, 1)
+				return
+			}
+		}
+	}
+	c.R.Trace()
+	c.R.Distinct(evid.Hash("crowd", cs))
 }
 
 func c09Scripts(e *rEnv) [][]rPkt {
@@ -232,6 +290,15 @@ func c09Run(c *Ctx) {
 			})
 		}
 	}
+	// a login waiting at a prompt while 70 (thorough: also 300) other sessions come and go on its connection
+	for _, si := range []int{0, 1, 3, 7} {
+		for _, crowd := range tierPick(c.Quick, []int{70}, []int{70, 300}) {
+			job++
+			if c.Mine(job) {
+				c09Crowd(c, rw, e, scripts, c09Case{Scripts: []int{si}, Crowd: crowd}, alone)
+			}
+		}
+	}
 	triples := [][]int{{0, 1, 3}, {0, 6, 8}, {1, 7, 4}, {2, 3, 11}, {0, 0, 0}, {7, 1, 10}}
 	if !c.Quick {
 		triples = nil
@@ -280,5 +347,9 @@ func c09Replay(c *Ctx, raw json.RawMessage) {
 		panic(err)
 	}
 	defer rw.stop()
+	if cs.Crowd > 0 {
+		c09Crowd(c, rw, e, scripts, cs, alone)
+		return
+	}
 	c09Interleaving(c, rw, e, scripts, cs, alone)
 }
